@@ -826,11 +826,11 @@ pub fn run_c08(tier: Tier, seed: u64) -> i32 {
         tier,
         seed,
         "exploration",
-        "sorts (multi-key, ASC/DESC, NULLS FIRST/LAST, all key types incl. boolean and date), top-k (ORDER BY .. LIMIT k [OFFSET m] under a total order), inner and outer joins, grouped aggregates incl. COUNT(DISTINCT) over small and medium tables registered in several batches; every statement is executed with unlimited memory and under limits {64 B, 4 KiB, 16 KiB, 64 KiB, 1 MiB, 3 MiB}; an Ok answer under a limit must equal the unlimited answer (sequence under ORDER BY up to identical rows, multiset otherwise), an explicit error is allowed. distinct = distinct (statement skeleton, limit) whose unlimited answer is non-empty",
+        "sorts (multi-key, ASC/DESC, NULLS FIRST/LAST, all key types incl. boolean and date), top-k (ORDER BY .. LIMIT k [OFFSET m] under a total order), inner and outer joins, grouped aggregates incl. COUNT(DISTINCT) over small and medium tables registered in several batches; every statement is executed with unlimited memory and under limits {64 B, 4 KiB, 16 KiB, 64 KiB, 256 KiB, 1 MiB, 3 MiB}; an Ok answer under a limit must equal the unlimited answer (sequence under ORDER BY up to identical rows, multiset otherwise), an explicit error is allowed. distinct = distinct (statement skeleton, limit) whose unlimited answer is non-empty",
     );
     let n_dbs = tier.pick(40, 700);
     let per_db = tier.pick(16, 24);
-    let limits: Vec<usize> = vec![64, 4 << 10, 16 << 10, 64 << 10, 1 << 20, 3 << 20];
+    let limits: Vec<usize> = vec![64, 4 << 10, 16 << 10, 64 << 10, 256 << 10, 1 << 20, 3 << 20];
     let seeds: Vec<u64> = (0..n_dbs).map(|i| seed.wrapping_mul(3_000_017).wrapping_add(i as u64)).collect();
     par_run(&mut rep, seeds, default_threads(), |sd| {
         let mut rng = Rng::new(sd ^ 0xC08);
@@ -856,6 +856,16 @@ pub fn run_c08(tier: Tier, seed: u64) -> i32 {
             let mut g = G::new(&mut qrng, f);
             g.total_order_limit = true;
             let q = match g.rng.below(10) {
+                // a narrow two-column sort of the largest table: long runs (more rows per run than the merge reads at once)
+                0 if g.rng.chance(1, 2) => {
+                    let t = db.iter().max_by_key(|t| t.rows.len()).unwrap();
+                    let desc = g.rng.bool();
+                    let core = format!("SELECT r0.id AS c0, r0.i1 AS c1 FROM {} AS r0", t.name);
+                    let mut q = GenQuery { sql: String::new(), full_sql: core.clone(), keys: vec![], limit: None, offset: 0, tags: vec!["order-by".into(), "narrow-sort".into()], ncols: 2 };
+                    q.sql = format!("{} ORDER BY c1{} NULLS LAST, c0", core, if desc { " DESC" } else { "" });
+                    q.keys = vec![crate::canon::SortKey { col: 1, desc, nulls_first: false }, crate::canon::SortKey { col: 0, desc: false, nulls_first: false }];
+                    q
+                }
                 0..=2 => loop {
                     g.tags.clear();
                     let q = g.q_simple(&db, 1);
